@@ -2,6 +2,10 @@
 #include "bitserializer/bit_serializer.h"
 #include "bitserializer/serialization_detail/generic_container.h"
 #include <vector>
+#include <optional>
+#include <memory>
+#include "bitserializer/types/std/optional.h"
+#include "bitserializer/types/std/memory.h"
 namespace verif_inst {
 using namespace BitSerializer;
 // abstract array scope of some archive in load mode: only declarations - every call is a contract-only callee
@@ -12,5 +16,7 @@ public:
   bool IsEnd() const;
   bool SerializeValue(int& value);
 };
+bool load_optional(AbsLoadArrayScope& scope, std::optional<int>& v) { return BitSerializer::Serialize(scope, v); }
+bool load_unique(AbsLoadArrayScope& scope, std::unique_ptr<int>& v) { return BitSerializer::Serialize(scope, v); }
 void load_vector(AbsLoadArrayScope& scope, std::vector<int>& cont) { BitSerializer::Detail::SerializeContainer(scope, cont); }
 }
